@@ -56,10 +56,13 @@ Definition len {A} (l : list A) : N := N.of_nat (length l).
 (* ------------------------------------------------------------------------------------------ *)
 (** * thrift_encode.c *)
 
-Record encoder := { e_out : list N; e_lfid : list Z }.
+(** [e_rev]: the bytes appended to the buffer so far, most recent first (so that appending is cheap when the
+    model is executed); [e_out] is the buffer content. *)
+Record encoder := { e_rev : list N; e_lfid : list Z }.
+Definition e_out (e : encoder) : list N := rev_append (e_rev e) [].   (* = rev (e_rev e), in linear time *)
 
-Definition encoder_init : encoder := {| e_out := []; e_lfid := [] |}.
-Definition emit (bs : list N) (e : encoder) : encoder := {| e_out := e_out e ++ bs; e_lfid := e_lfid e |}.
+Definition encoder_init : encoder := {| e_rev := []; e_lfid := [] |}.
+Definition emit (bs : list N) (e : encoder) : encoder := {| e_rev := rev_append bs (e_rev e); e_lfid := e_lfid e |}.
 
 (** thrift_write_varint: `uint8_t buf[10]`; running past it would be an out-of-bounds write *)
 Fixpoint varint_loop (room : nat) (value : N) : res (list N) :=
@@ -137,13 +140,13 @@ Definition write_string (s : option (list N)) (e : encoder) : res encoder :=
 
 Definition write_struct_begin (e : encoder) : res encoder :=
   if ENC_MAX_NESTING <=? len (e_lfid e) then Err ST_ENCODE
-  else Ok {| e_out := e_out e; e_lfid := 0%Z :: e_lfid e |}.
+  else Ok {| e_rev := e_rev e; e_lfid := 0%Z :: e_lfid e |}.
 
 Definition write_field_stop (e : encoder) : res encoder := write_byte 0 e.
 
 Definition write_struct_end (e : encoder) : res encoder :=
   match write_field_stop e with
-  | Ok e1 => Ok {| e_out := e_out e1; e_lfid := tl (e_lfid e1) |}
+  | Ok e1 => Ok {| e_rev := e_rev e1; e_lfid := tl (e_lfid e1) |}
   | Err c => Err c
   | Fault f => Fault f
   end.
@@ -166,7 +169,7 @@ Definition write_field_header (ty : N) (field_id : Z) (e : encoder) : res encode
       | Fault f => Fault f
       end in
   match r with
-  | Ok e2 => Ok {| e_out := e_out e2; e_lfid := set_top fid (e_lfid e2) |}
+  | Ok e2 => Ok {| e_rev := e_rev e2; e_lfid := set_top fid (e_lfid e2) |}
   | Err c => Err c
   | Fault f => Fault f
   end.
@@ -207,8 +210,13 @@ Record decoder := {
 Definition decoder_init (data : list N) : decoder :=
   {| d_rest := data; d_pos := 0; d_lfid := []; d_boolp := false; d_boolv := false |}.
 
-Definition has_bytes (d : decoder) (n : N) : bool := n <=? len (d_rest d).
-Definition remaining (d : decoder) : N := len (d_rest d).
+(** `pos + n <= size`, i.e. at least n bytes lie at and after the cursor *)
+Fixpoint has_len (l : list N) (n : N) : bool :=
+  match n with
+  | 0 => true
+  | _ => match l with [] => false | _ :: t => has_len t (N.pred n) end
+  end.
+Definition has_bytes (d : decoder) (n : N) : bool := has_len (d_rest d) n.
 
 Definition with_reader (d : decoder) (rest : list N) (pos : N) : decoder :=
   {| d_rest := rest; d_pos := pos; d_lfid := d_lfid d; d_boolp := d_boolp d; d_boolv := d_boolv d |}.
@@ -380,7 +388,7 @@ Definition read_list_begin (d : decoder) : res (N * Z * decoder) :=
     match r with
     | Ok (count, d2) =>
       if (count <? 0)%Z then Err ST_DECODE
-      else if remaining d2 <? Z.to_N count then Err ST_DECODE
+      else if negb (has_bytes d2 (Z.to_N count)) then Err ST_DECODE          (* (size_t)count > remaining *)
       else Ok (et, count, d2)
     | Err c => Err c
     | Fault f => Fault f
@@ -396,7 +404,7 @@ Definition read_map_begin (d : decoder) : res (N * N * Z * decoder) :=
     let count := i32 (Z.of_N n) in
     if (count <? 0)%Z then Err ST_DECODE
     else if (count =? 0)%Z then Ok (0, 0, 0%Z, d1)
-    else if remaining d1 <? Z.to_N count then Err ST_DECODE
+    else if negb (has_bytes d1 (Z.to_N count)) then Err ST_DECODE            (* (size_t)count > remaining *)
     else
       match read_byte_raw d1 with
       | Ok (types, d2) => Ok (N.land (N.shiftr types 4) 15, N.land types 15, count, d2)
@@ -433,11 +441,12 @@ Fixpoint skip_pairs (skk skv : decoder -> res decoder) (n : nat) (d : decoder) :
   end.
 
 (** `while (thrift_read_field_begin(...)) skip(field_type)`: every iteration consumes at least the
-    header byte, so [k] = bytes remaining + 1 iterations are always enough (ThriftProofs) *)
-Fixpoint skip_fields (sk : N -> decoder -> res decoder) (k : nat) (d : decoder) : res decoder :=
+    header byte, so one more iteration than there are bytes left is always enough (ThriftProofs).  The
+    fuel is a list used for its length only (the remaining bytes themselves serve, at no cost). *)
+Fixpoint skip_fields (sk : N -> decoder -> res decoder) (k : list N) (d : decoder) : res decoder :=
   match k with
-  | O => Fault OutOfFuel
-  | S k' => match read_field_begin d with
+  | [] => Fault OutOfFuel
+  | _ :: k' => match read_field_begin d with
             | Ok (None, d1) => Ok d1
             | Ok (Some (ft, _), d1) =>
               match sk ft d1 with
@@ -483,7 +492,7 @@ Fixpoint skip_value (fuel : nat) (ty : N) (depth : N) (is_element : bool) (d : d
       end
     | 12 =>
       match read_struct_begin d with
-      | Ok d1 => match skip_fields (fun ft => skip_value fuel' ft (depth + 1) false) (S (length (d_rest d1))) d1 with
+      | Ok d1 => match skip_fields (fun ft => skip_value fuel' ft (depth + 1) false) (0 :: d_rest d1) d1 with
                  | Ok d2 => Ok (read_struct_end d2)
                  | Err c => Err c
                  | Fault f => Fault f
